@@ -3,7 +3,6 @@ package main
 // Helpers for running Lua source on the real interpreter under recover + timeout.
 
 import (
-	"context"
 	"fmt"
 	"strings"
 	"time"
@@ -42,7 +41,14 @@ func runLuaFull(src string, timeout time.Duration, setup func(L *lua.LState), op
 	if setup != nil {
 		setup(L)
 	}
-	ctx, cancel := context.WithTimeout(context.Background(), timeout)
+	// `timeout` is turned into an INSTRUCTION budget (20 000 dispatched instructions per millisecond asked for: far more
+	// than any terminating generated program executes), so that a starved machine cannot produce a "timeout"; a wall-clock
+	// backstop of 30× the time asked for (at least a minute) remains for loops inside coroutines and host functions
+	backstop := 30 * timeout
+	if backstop < time.Minute {
+		backstop = time.Minute
+	}
+	ctx, cancel := newBudgetCtxWithBackstop(int64(timeout/time.Millisecond)*20000, backstop)
 	defer cancel()
 	L.SetContext(ctx)
 	defer func() {
